@@ -48,18 +48,23 @@ def jobs(tier):
         j = {"id": f"O4.laws.c{KN[ck]}.d{KN[dk]}", "func": "VerifH_C08_FilterLaws", "conf": {"ck": ck, "dk": dk},
              "_obligation": "O4", "_covers": ["filtered"]}
         js.append(j)
+    for kind, kn in ((0, "child-int"), (1, "child-float"), (2, "inline-int-limit")):
+        if kind == 1:
+            js.append({"id": f"O5.sum.{kn}", "func": "VerifH_C08_Sum", "conf": {"kind": kind, "class": 2}, "_obligation": "O5", "_covers": ["summed"], "reset_mode": True})
+            continue
+        js.append({"id": f"O5.sum.{kn}", "func": "VerifH_C08_Sum", "conf": {"kind": kind, "class": 0}, "_obligation": "O5", "_covers": ["summed"], "reset_mode": True})
     js.append({"id": "twin", "func": "VerifH_C08_Reach", "conf": {}, "_obligation": "vacuity", "_expect": "twin", "_covers": ["end"]})
     return js
 
 
 PROPERTY = {
     "id": "C08",
-    "suites": [{"name": "planner", "pkg": "internal/planner", "files": ["zz_verif_c08.go"], "jobs": jobs, "unwind": 16}],
+    "suites": [{"name": "planner", "pkg": "internal/planner", "files": ["zz_verif_c08.go", "zz_verif_c08agg.go"], "jobs": jobs, "unwind": 16}],
     "bounds": {"quick": {"sort keys": "<=2", "rows sorted": 3, "limit rows": "<=3", "strings": "<=2 bytes", "numeric": "full width"},
                "thorough": {"sort keys": "<=2 (all kind pairs)", "rows sorted": "3-4", "limit rows": "<=5", "strings": "<=2 bytes", "numeric": "full width"}},
     "assumptions": ["values of one field share one kind (schema typing)", "no NaN (cannot enter through JSON/GraphQL)",
                     "limit/offset < 2^31 (non-negative GraphQL Int)",
                     "mixed int/float comparisons are specified as carried out in float64, mixed equality as exact"],
-    "outside_claim": ["sum/average (fp.add chains time out in all solvers), min/max (math/big), countNode (reflect), group, _like family, array/JSON operators",
+    "outside_claim": ["min / max (math/big), average, grouping; integer sums whose values exceed 2^53 (sumNode accumulates in a float64: the class of known finding C18-int-above-2p53)", "sum/average (fp.add chains time out in all solvers), min/max (math/big), countNode (reflect), group, _like family, array/JSON operators",
                       "GraphQL parser, mapper and ExecRequest as a whole (the no-request-panics clause)", "commits plan node"],
 }
